@@ -98,6 +98,7 @@ def case_real(log, sector, mode, order=None, nf_fixed=None, nf_hi=6, n_real=None
     """imaginary part == 0 for real N.  mode 'a': N symbolic; mode 'b': N = n_real (rational)"""
     seen = set()
     log.assume("domain: N real, N > 1 (away from the poles at N = 1, 0, -1, ...)")
+    log.register_replay("%s:real" % sector, (MOD, "replay_conj", {"sector": sector, "order": order, "nf_fixed": nf_fixed, "variation": list(variation)}), _sampler)
 
     def run():
         E.unpatch()
@@ -186,6 +187,270 @@ def _validate(log, sector, order, nf_fixed, variation):
     E.unpatch()
 
 
+# ---------------------------------------------------------------------------
+# branch structure: the code path taken at N and at conj N
+# ---------------------------------------------------------------------------
+class Opaque:
+    """absorbing value: stands for any quantity whose value is irrelevant to the control flow"""
+
+    __array_ufunc__ = None
+
+    def _o(self, *a, **k):
+        return self
+
+    __add__ = __radd__ = __sub__ = __rsub__ = __mul__ = __rmul__ = __truediv__ = __rtruediv__ = __pow__ = __rpow__ = _o
+    __neg__ = __pos__ = __abs__ = conjugate = conj = log = exp = sqrt = _o
+    real = property(_o)
+    imag = property(_o)
+
+    def _cmp(self, o):
+        raise SymbolicEscape("branch on a value-dependent quantity (not a function of N alone)")
+
+    __lt__ = __le__ = __gt__ = __ge__ = _cmp
+
+    def __bool__(self):
+        raise SymbolicEscape("truth value of a value-dependent quantity")
+
+    __hash__ = object.__hash__
+
+    def __repr__(self):
+        return "<opaque>"
+
+
+OPQ = Opaque()
+
+
+class SqAbs:
+    """|v| for v real-affine or complex-affine in (x, y), kept as v^2: comparisons with non-negative constants are polynomial"""
+
+    def __init__(self, sq):
+        self.sq = sq
+
+    def _c2(self, c):
+        c = float(c)
+        if c < 0:
+            raise SymbolicEscape("comparison of an absolute value with a negative constant")
+        return SR(Q(Poly.const(c))) * SR(Q(Poly.const(c)))
+
+    def __lt__(self, c):
+        return self.sq < self._c2(c)
+
+    def __le__(self, c):
+        return self.sq <= self._c2(c)
+
+    def __gt__(self, c):
+        return self.sq > self._c2(c)
+
+    def __ge__(self, c):
+        return self.sq >= self._c2(c)
+
+
+class Lin:
+    """real quantity affine in (x, y) = (Re N, Im N)"""
+
+    def __init__(self, v):
+        self.v = v
+
+    def _k(self, o):
+        if isinstance(o, Lin):
+            return o.v
+        if isinstance(o, (int, float)) and not isinstance(o, bool):
+            return o
+        return None
+
+    def __add__(self, o):
+        k = self._k(o)
+        return OPQ if k is None else Lin(self.v + k)
+
+    __radd__ = __add__
+
+    def __sub__(self, o):
+        k = self._k(o)
+        return OPQ if k is None else Lin(self.v - k)
+
+    def __rsub__(self, o):
+        k = self._k(o)
+        return OPQ if k is None else Lin(k - self.v)
+
+    def __neg__(self):
+        return Lin(-self.v)
+
+    def __mul__(self, o):
+        return Lin(self.v * o) if isinstance(o, (int, float)) and not isinstance(o, bool) else OPQ
+
+    __rmul__ = __mul__
+
+    def __truediv__(self, o):
+        return Lin(self.v / o) if isinstance(o, (int, float)) and not isinstance(o, bool) else OPQ
+
+    __rtruediv__ = __pow__ = __rpow__ = lambda self, *a: OPQ
+
+    def __abs__(self):
+        return SqAbs(self.v * self.v)
+
+    def __lt__(self, o):
+        return self.v < self._k(o)
+
+    def __le__(self, o):
+        return self.v <= self._k(o)
+
+    def __gt__(self, o):
+        return self.v > self._k(o)
+
+    def __ge__(self, o):
+        return self.v >= self._k(o)
+
+    __hash__ = object.__hash__
+
+
+class NProbe:
+    """s*N + c with N = x + i y symbolic: only what the control flow can see of the Mellin variable (its real and imaginary
+    part, its modulus, shifted and rescaled by constants); every other operation yields an opaque value"""
+
+    __array_ufunc__ = None
+
+    def __init__(self, re, im):
+        self.re, self.im = re, im
+
+    def _k(self, o):
+        if isinstance(o, NProbe):
+            return o.re, o.im
+        if isinstance(o, (int, float, complex)) and not isinstance(o, bool):
+            o = complex(o)
+            return o.real, o.imag
+        return None
+
+    def __add__(self, o):
+        k = self._k(o)
+        return OPQ if k is None else NProbe(self.re + k[0], self.im + k[1])
+
+    __radd__ = __add__
+
+    def __sub__(self, o):
+        k = self._k(o)
+        return OPQ if k is None else NProbe(self.re - k[0], self.im - k[1])
+
+    def __rsub__(self, o):
+        k = self._k(o)
+        return OPQ if k is None else NProbe(k[0] - self.re, k[1] - self.im)
+
+    def __neg__(self):
+        return NProbe(-self.re, -self.im)
+
+    def __mul__(self, o):
+        if isinstance(o, (int, float)) and not isinstance(o, bool):
+            return NProbe(self.re * o, self.im * o)
+        return OPQ
+
+    __rmul__ = __mul__
+
+    def __truediv__(self, o):
+        if isinstance(o, (int, float)) and not isinstance(o, bool):
+            return NProbe(self.re / o, self.im / o)
+        return OPQ
+
+    __rtruediv__ = __pow__ = __rpow__ = lambda self, *a: OPQ
+
+    @property
+    def real(self):
+        return Lin(self.re)
+
+    @property
+    def imag(self):
+        return Lin(self.im)
+
+    def conjugate(self):
+        return NProbe(self.re, -self.im)
+
+    def __abs__(self):
+        return SqAbs(self.re * self.re + self.im * self.im)
+
+    def _cmp(self, o):
+        raise SymbolicEscape("ordering comparison of the complex Mellin variable")
+
+    __lt__ = __le__ = __gt__ = __ge__ = _cmp
+    __hash__ = object.__hash__
+
+
+class _ProbeNP(E.shim.SymNumpy):
+    def real(self, x):
+        return x.real if isinstance(x, (NProbe, Opaque, Lin)) else super().real(x)
+
+    def imag(self, x):
+        return x.imag if isinstance(x, (NProbe, Opaque)) else super().imag(x)
+
+    def abs(self, x):
+        return abs(x) if isinstance(x, (NProbe, Opaque, Lin)) else super().abs(x)
+
+    absolute = abs
+
+    def power(self, x, k):
+        return x ** k if isinstance(x, (NProbe, Opaque, Lin)) else super().power(x, k)
+
+    def isnan(self, x):
+        return False if isinstance(x, (NProbe, Opaque, Lin)) else super().isnan(x)
+
+    def log(self, x):
+        return OPQ if isinstance(x, (NProbe, Opaque, Lin)) else super().log(x)
+
+    exp = sqrt = log
+
+
+def case_branches(log, sector, order=None, nf=4, variation=ZERO7):
+    """Decides that N and conj N always follow the same code path: the real tower is executed on a probe that exposes only Re N,
+    Im N and |N + c| (harmonic sums and every value-level operation are opaque), the path manager forks on every guard that looks
+    at N, and for each pair of distinct paths P, Q the solver must refute  N in P  and  conj N in Q.  A model is a point where
+    the code computes N and conj N differently: it is replayed with the numeric conjugation check on the real code."""
+    import z3
+    from symx import solver as S_
+
+    _encode(log, sector)
+    paths = []
+    log.register_replay("%s:branches" % sector, (MOD, "replay_conj", {"sector": sector, "order": order, "nf_fixed": nf, "variation": list(variation)}), _sampler_line1)
+
+    def run():
+        E.unpatch()
+        pnp = E.patch(_ProbeNP(True))
+        for m_ in E.load():
+            if "npp" in vars(m_):  # `from numpy import power as npp`
+                E.rebind(m_, "npp", pnp.power)
+        x, y = SR.var("x"), SR.var("y")
+        E.box(x, Fraction(1, 2), 50)
+        E.box(y, -60, 60)
+        c = E.mod("ekore.harmonics.cache")
+        E.rebind(c, "get", lambda *a, **k: OPQ)
+        E.install_psi(lambda *a, **k: OPQ)
+        targets(sector, NProbe(x, y), nf, 1.0, order, variation)
+        paths.append((tuple(ctx.path.trace), z3.And(S_.context_constraints())))
+        E.twin(log)
+
+    _r, pm = explore(run)
+    log.path_stats(pm)
+    E.unpatch()
+    zy = z3.Real("y")
+    npair = 0
+    for i, (ti, fi) in enumerate(paths):
+        for j, (tj, fj) in enumerate(paths):
+            if ti == tj:
+                continue
+            npair += 1
+            goal = z3.And(fi, z3.substitute(fj, (zy, -zy)))
+            rs, m, dt = S_.check([goal], 20000)
+            what = "%s: no N with code path #%d while conj N takes path #%d (of %d paths)" % (sector, i, j, len(paths))
+            v = S_.Verdict(rs, what, None, S_.model_point(m) if m is not None else None, dt, None, 1)
+            cands = []
+            if v.model and "x" in v.model and "y" in v.model:
+                cands = [{"N": v.model["x"], "nf": Fraction(nf), "L": Fraction(1), "ReN": v.model["x"], "ImN": v.model["y"]}]
+            E.decide(log, v, "%s:branches" % sector, replay=(MOD, "replay_conj", {"sector": sector, "order": order, "nf_fixed": nf, "variation": list(variation)}),
+                     candidates=cands, sampler=_sampler_line1)
+    v = S_.prove_formula(z3.BoolVal(len(paths) >= 1), "%s: %d code paths over Re N in [1/2,50], |Im N| <= 60; %d ordered pairs of distinct paths refuted" % (sector, len(paths), npair))
+    E.decide(log, v, "%s:branches" % sector)
+
+
+def _sampler_line1(rng):
+    return {"N": rnd(rng, 1.2, 40), "nf": Fraction(4), "L": rnd(rng, -3, 3)}
+
+
 def _scale(x):
     """upper bound of |polynomial| on the box |nf| <= 6, |L| <= 3 from its coefficients"""
     tot = Fraction(0)
@@ -209,6 +474,8 @@ def _scale(x):
 def case_offaxis(log, sector, points, order=None, nf_fixed=None, nf_hi=6, variation=ZERO7):
     """f(conj N) == conj f(N) at concrete complex N, nf and L symbolic (mode b)"""
     seen = set()
+    log.register_replay("%s:conj" % sector, (MOD, "replay_conj", {"sector": sector, "order": order, "nf_fixed": nf_fixed, "variation": list(variation),
+                                                                 "N": [points[0].real, points[0].imag]}), _sampler)
 
     def run():
         E.unpatch()
@@ -287,6 +554,8 @@ def replay_conj(point, sector, order=None, nf_fixed=None, variation=ZERO7, N=Non
     pts = []
     if N is not None:
         pts.append(complex(N[0], N[1]))
+    if "ReN" in point and "ImN" in point:
+        pts.append(complex(float(point["ReN"]), float(point["ImN"])))
     x = float(point.get("N", 3.3))
     if x > 1:
         pts += [complex(x, 0.0), complex(x, 1.75), complex(x, -23.0)]
@@ -322,7 +591,10 @@ def main():
                   "matching a_s^1..3 (POLE and MSBAR), polarised matching a_s^1..2, time-like matching a_s^1",
                   "quick tier: eko N3LO approximations on the real axis with nf=4 (orders 1-3 with nf symbolic), QED grids (3,2) for nf in {4,5} and (4,2) FHMRUVV for nf=4",
                   "quick tier: O(a_s^3) matching on the real axis at N in {5/2, 7/2, 31/4} (mode b; A_gq^(3) has a removable pole at N=2) instead of symbolic N"]
-    chk.out_of_claim = ["conjugation symmetry at complex N other than the listed points is inferred (Schwarz reflection) from the real-axis result, not decided directly",
+    chk.bounds.append("branch structure: for Re N in [1/2,50], |Im N| <= 60 (nf=4, L=1) every guard of the towers that inspects N (Re N, Im N, |N+c| against constants) "
+                      "is explored symbolically and N, conj N are shown to take the same code path")
+    chk.out_of_claim = ["conjugation symmetry of the *values* at complex N other than the listed points is inferred (Schwarz reflection per code path) from the real-axis result "
+                        "together with the decided mirror symmetry of the branch structure, not decided directly",
                         "cern_polygamma itself on the real axis (stubbed in mode a); the float evaluation's rounding",
                         "neighbourhoods of the poles N <= 1"]
     chk.stubs = ["mode a: cern_polygamma -> real atoms psi_k(z) for real z (axiom: psi_k real on the real axis), recurrence psi_k(z+1) = psi_k(z) + (-1)^k k!/z^(k+1), values at z=1"]
@@ -359,6 +631,8 @@ def main():
         chk.case("conj.qed.as4.nf%d" % nf, case_offaxis, sector="qed.as4", points=OFFAXIS[:2 if tier == "quick" else 5], nf_fixed=nf)
         if nf <= 5:
             chk.case("conj.qed.fhmruvv.nf%d" % nf, case_offaxis, sector="qed.fhmruvv", points=OFFAXIS[:2 if tier == "quick" else 5], nf_fixed=nf)
+    for sector in ("sl.as4", "sl.fhmruvv", "qed.as4", "qed.fhmruvv", "tl", "pol", "ome.sl", "ome.pol", "ome.tl"):
+        chk.case("branches.%s" % sector, case_branches, sector=sector)
     if tier == "thorough":
         chk.case("real.ome.sl.as3", case_real, sector="ome.sl", mode="a", order=3, nf_hi=5)
         chk.case("real.sl.as4.var", case_real, sector="sl.as4", mode="a", nf_hi=5, variation=(7, 3, 11, 2, 0, 0, 0))
